@@ -1724,6 +1724,12 @@ class Interp:
         inner = Scope(scope.module, scope, scope.qualname)
         k = z3.Int(CTX.fresh_name("ck"))
         from .values import _elem_wrap
+        if isinstance(it, GhostVal) and hasattr(it, "pv_comprehension"):
+            return it.pv_comprehension(self, e, scope)
+        if isinstance(it, RangeVal) and it.step == 1 and len(g.ifs) == 1 and isinstance(g.target, ast.Name):
+            r = self._filtered_range_comp(e, g, scope, it)
+            if r is not None:
+                return r
         if isinstance(it, GhostVal):
             # comprehension over a ghost sequence: lazily evaluated pointwise list (the element expression is
             # evaluated for the requested index in the scope as it is at that time)
@@ -1782,6 +1788,51 @@ class Interp:
         r.havoc("ref")
         CTX.assume(r.length == n)
         return r
+
+
+    def _filtered_range_comp(self, e, g, scope, rng):
+        """[f(i) for i in range(a, b) if i not in E] with E a list/tuple of at most two integers: the order-preserving
+        enumeration of the indices outside E (CPython semantics of the filter), as a lazy pointwise list.  Returns
+        None when the filter has another shape."""
+        c = g.ifs[0]
+        if not (isinstance(c, ast.Compare) and len(c.ops) == 1 and isinstance(c.ops[0], ast.NotIn)
+                and isinstance(c.left, ast.Name) and c.left.id == g.target.id):
+            return None
+        E = self.eval(c.comparators[0], scope)
+        items = self.iterate(E)
+        if items is None or len(items) > 2 or any(_zint(x) is None for x in items):
+            return None
+        lo, hi = _zint(rng.start), _zint(rng.stop)
+        n = z3.If(hi > lo, hi - lo, 0)
+        es = [_zint(x) for x in items]
+        inr = [z3.And(x >= lo, x < hi) for x in es]
+        if len(es) == 0:
+            cnt = z3.IntVal(0)
+        elif len(es) == 1:
+            cnt = z3.If(inr[0], 1, 0)
+        else:
+            cnt = z3.If(inr[0], 1, 0) + z3.If(z3.And(inr[1], es[1] != es[0]), 1, 0)
+        length = z3.simplify(n - cnt)
+
+        def elem(k):
+            # k-th kept index: skip the excluded ones that lie at or before it
+            kz = _zint(k)
+            if len(es) == 0:
+                idx = lo + kz
+            elif len(es) == 1:
+                idx = lo + kz + z3.If(z3.And(inr[0], es[0] <= lo + kz), 1, 0)
+            else:
+                a = z3.If(es[0] <= es[1], es[0], es[1])
+                b = z3.If(es[0] <= es[1], es[1], es[0])
+                ina = z3.And(a >= lo, a < hi)
+                inb = z3.And(b >= lo, b < hi, b != a)
+                s1 = lo + kz + z3.If(z3.And(ina, a <= lo + kz), 1, 0)
+                idx = s1 + z3.If(z3.And(inb, b <= s1), 1, 0)
+            sc = Scope(scope.module, scope, scope.qualname)
+            self.assign_target(g.target, mk_int(z3.simplify(idx)), sc)
+            return self.eval(e.elt, sc)
+
+        return PointwiseSeq(length, elem, "filtered-range-comprehension")
 
 
 class _SymComp(Exception):
